@@ -408,6 +408,23 @@ func checkC15(c *Ctx) {
 					continue
 				}
 				n++
+				// the copy is made whenever the source is non-nil: a controlling test on the field is a test
+				// against nil, not on its length (an empty non-nil slice must stay non-nil)
+				for d := b; d != nil; d = d.Idom() {
+					iff, ok := d.Instrs[len(d.Instrs)-1].(*ssa.If)
+					if !ok || d == b {
+						continue
+					}
+					if bo, ok := iff.Cond.(*ssa.BinOp); ok {
+						for _, side := range []ssa.Value{bo.X, bo.Y} {
+							if call, ok := side.(*ssa.Call); ok {
+								if bi, ok := call.Call.Value.(*ssa.Builtin); ok && bi.Name() == "len" && len(call.Call.Args) == 1 && loadsField(call.Call.Args[0], fieldName(fa)) {
+									bad = append(bad, fmt.Sprintf("the copy of field %s at %s is made only for a non-zero length (test at %s): an empty non-nil slice becomes nil", fieldName(fa), p.pos(st.Pos()), p.pos(iff.Cond.Pos())))
+								}
+							}
+						}
+					}
+				}
 				if call, ok := st.Val.(*ssa.Call); ok {
 					if bi, ok := call.Call.Value.(*ssa.Builtin); ok && bi.Name() == "append" && len(call.Call.Args) > 0 {
 						if k, ok := call.Call.Args[0].(*ssa.Const); ok && k.IsNil() {
